@@ -36,6 +36,41 @@ fn write_dlt(path: &Path, n: u32, start_index: u32) {
     f.flush().unwrap();
 }
 
+/// the same messages as `write_dlt`, produced by patching the bytes of one serialised message (seconds of the
+/// storage header, message counter): fast enough for a million messages; checked against `to_write` on samples
+fn write_dlt_fast(path: &Path, n: u32) {
+    use adlt::dlt;
+    let ecu = dlt::DltChar4::from_buf(b"ECUR");
+    let ser = |i: u32| -> Vec<u8> {
+        let sh = dlt::DltStorageHeader { secs: i + 1_640_995_200, micros: 0, ecu };
+        let standard_header = dlt::DltStandardHeader { htyp: 1 << 5, mcnt: (i % 256) as u8, len: 4 };
+        let m = dlt::DltMessage::from_headers(i, sh, standard_header, &[], vec![]);
+        let mut v = vec![];
+        m.to_write(&mut v).unwrap();
+        v
+    };
+    let tmpl = ser(0);
+    let patch = |i: u32| -> Vec<u8> {
+        let mut v = tmpl.clone();
+        v[4..8].copy_from_slice(&(i + 1_640_995_200).to_le_bytes());
+        v[17] = (i % 256) as u8;
+        v
+    };
+    for i in [0u32, 1, 255, 256, 70_000, 999_999] {
+        assert_eq!(patch(i), ser(i), "message layout changed");
+    }
+    let mut f = std::io::BufWriter::with_capacity(1 << 20, std::fs::File::create(path).unwrap());
+    for i in 0..n {
+        f.write_all(&patch(i)).unwrap();
+    }
+    f.flush().unwrap();
+}
+
+/// more messages than the channels between the parser threads and the connection thread can hold
+/// (sync_channel(1024*1024) + sync_channel(512*1024) [+ 512*1024 with sort]): with a paused connection the
+/// pipeline is still full when the parse thread ends, so `close` has to drain until the channel is disconnected
+const HUGE_MSGS: u32 = 1_000_000;
+
 struct Files {
     dir: PathBuf,
 }
@@ -44,6 +79,7 @@ impl Files {
         write_dlt(&dir.join("a.dlt"), 10, 0);
         write_dlt(&dir.join("b.dlt"), 5, 10);
         write_dlt(&dir.join("big.dlt"), 150_000, 0);
+        write_dlt_fast(&dir.join("huge.dlt"), HUGE_MSGS);
         std::fs::write(dir.join("empty.dlt"), b"").unwrap();
         std::fs::write(dir.join("bad.zip"), b"this is not a zip").unwrap();
         std::fs::create_dir_all(dir.join("sub")).unwrap();
@@ -53,6 +89,7 @@ impl Files {
     fn subst(&self, s: &str) -> String {
         let p = |n: &str| self.dir.join(n).to_str().unwrap().to_string();
         s.replace("@BADZIP", &p("bad.zip"))
+            .replace("@HUGE", &p("huge.dlt"))
             .replace("@BIG", &p("big.dlt"))
             .replace("@B", &p("b.dlt"))
             .replace("@A", &p("a.dlt"))
@@ -1174,6 +1211,39 @@ fn corpus(files: &Files) -> Vec<(&'static str, Vec<Cmd>)> {
                 files,
             ),
         ),
+        // close with a full pipeline: a million messages, the connection paused right after open, so that the
+        // final channel (512k) is full and the threads behind it are blocked when the parse thread has ended;
+        // close has to keep draining until the channel is disconnected, then open works again
+        (
+            "close_full_pipeline",
+            fixed(
+                &[
+                    (0, r#"open {"files":["@HUGE"]}"#, open_a.clone()),
+                    (0, "pause", OrcS::None),
+                    (4000, "close", OrcS::None),
+                    (0, "pause", OrcS::None),
+                    (0, r#"open {"files":["@A"]}"#, open_a.clone()),
+                    (0, "close", OrcS::None),
+                    (0, "close", OrcS::None),
+                ],
+                files,
+            ),
+        ),
+        (
+            "close_full_pipeline_sorted",
+            fixed(
+                &[
+                    (0, r#"open {"files":["@HUGE"],"sort":true}"#, OrcS::Open(Some((0, true, vec![])))),
+                    (0, "pause", OrcS::None),
+                    (0, r#"stream {"window":[0,3],"binary":true}"#, st(false, 0, 3, 0)),
+                    (4500, "close", OrcS::None),
+                    (0, "stop 1", OrcS::Id(false)),
+                    (0, r#"open {"files":["@B"]}"#, open_a.clone()),
+                    (100, "close", OrcS::None),
+                ],
+                files,
+            ),
+        ),
         // every command before any open; arities
         (
             "nothing_open",
@@ -1393,7 +1463,7 @@ fn main() {
 /// a recorded frame contains the scratch directory of the recording run: replace `<anything>/<known file>` by this run's path
 fn rewrite_paths(frame: &str, files: &Files) -> String {
     let mut out = frame.to_string();
-    for name in ["a.dlt", "b.dlt", "big.dlt", "empty.dlt", "nofile.dlt", "bad.zip", "sub"] {
+    for name in ["a.dlt", "b.dlt", "big.dlt", "huge.dlt", "empty.dlt", "nofile.dlt", "bad.zip", "sub"] {
         // occurrences look like "/tmp/.tmpXXXX/a.dlt"
         let mut res = String::new();
         let mut rest = out.as_str();
